@@ -1,9 +1,9 @@
 #!/bin/sh
 # run every seeded change against the check of its property; prints one line per seed
 cd /verif
-for d in seeded/C*; do
+for d in ${SEEDS:-seeded/C*}; do
   id=$(basename $d)
-  p=${id%b}
+  p=$(echo $id | cut -c1-3)
   n=$(tools/try_seed.sh /verif/$d/patch.diff $p 2>/dev/null | grep "VIOLATION property=$p" | sort -u)
   c=$(echo "$n" | grep -c "replay=\S*$")
   b=$(echo "$n" | grep -c "no-failing-input-found")
